@@ -171,17 +171,18 @@ func evalerTypeOfCtor(p *Prog, ctor *types.Func) string {
 }
 
 type foldCase struct {
-	kind       string
-	pos        token.Pos
-	helper     string          // tryFold / tryFoldBinary / tryFoldUnary / identity
-	inputs     []string        // fields of v given as children, in order ("Args..." for a copied slice)
-	ctors      []*types.Func   // constructors returned by mkEval (all return sites)
-	guarded    map[string]bool // constructor name -> constructed only under a failed EntityUID assertion
-	rebuilt    string          // node kind rebuilt by mkNode
-	rebuiltPos map[string]int  // field -> index into nodes
-	copied     []string        // non-node fields of v read in mkNode
-	evalCopied []string        // non-node fields of v read in mkEval
-	literalArg bool            // operands of the constructor are newLiteralEval(values[i]) in order
+	kind         string
+	pos          token.Pos
+	helper       string          // tryFold / tryFoldBinary / tryFoldUnary / identity
+	inputs       []string        // fields of v given as children, in order ("Args..." for a copied slice)
+	ctors        []*types.Func   // constructors returned by mkEval (all return sites)
+	guarded      map[string]bool // constructor name -> constructed only under a failed EntityUID assertion
+	rebuilt      string          // node kind rebuilt by mkNode
+	rebuiltPos   map[string]int  // field -> index into nodes
+	copied       []string        // non-node fields of v read in mkNode
+	evalCopied   []string        // non-node fields of v read in mkEval
+	literalArg   bool            // operands of the constructor are newLiteralEval(values[i]) in order
+	rebuiltOther []string        // results returned by the rebuild closure that are not a literal of the rebuilt kind
 }
 
 func runC04(p *Prog, r *Report) {
@@ -235,6 +236,8 @@ func runC04(p *Prog, r *Report) {
 				posOK = false
 			}
 		}
+		r.Check(len(fc.rebuiltOther) == 0, "R4.3-constructor-agreement", q+":rebuild-every-return", pos, "every return of the rebuild closure is a "+kind+" literal",
+			"the rebuild closure of "+kind+" can also return "+strings.Join(fc.rebuiltOther, " / ")+": on that path the partly folded tree is not the original operator over the folded children")
 		r.Check(rebuildOK && posOK, "R4.3-constructor-agreement", q+":rebuild", pos, "rebuilds "+fc.rebuilt+" with children ("+strings.Join(fc.inputs, ",")+") in place",
 			"a partly folded "+kind+" is rebuilt as "+fc.rebuilt+" with children "+describePos(fc.rebuiltPos)+" for inputs ("+strings.Join(fc.inputs, ",")+"): the tree's shape or operand order changes")
 		// non-node fields copied
@@ -558,6 +561,48 @@ func analyseHelperCase(p *Prog, info *types.Info, ti *typeSwitchInfo, cc *ast.Ca
 			return true
 		})
 	}
+	// every return of the rebuild closure must itself be a node literal: a closure that, on some path,
+	// hands back the result of a helper, a child, or a re-associated tree rebuilds a different program
+	// (checked arithmetic is checked at every step; `(x + 1) - 1` is not `x + 0`).
+	rebuildReturns := func(fl *ast.FuncLit) {
+		var walk func(n ast.Node) bool
+		walk = func(n ast.Node) bool {
+			switch x := n.(type) {
+			case *ast.FuncLit:
+				return x == fl
+			case *ast.ReturnStmt:
+				for _, res := range x.Results {
+					e := ast.Unparen(res)
+					if un, ok := e.(*ast.UnaryExpr); ok && un.Op == token.AND {
+						e = ast.Unparen(un.X)
+					}
+					// a local assigned once, from a literal, stands for that literal
+					if id, ok := e.(*ast.Ident); ok {
+						if rhs := singleLocalDef(info, fl, id); rhs != nil {
+							e = ast.Unparen(rhs)
+						}
+					}
+					cl, ok := e.(*ast.CompositeLit)
+					if !ok {
+						fc.rebuiltOther = append(fc.rebuiltOther, types.ExprString(res))
+						continue
+					}
+					if tn := namedOf(info.Types[cl].Type); tn == nil || (fc.rebuilt != "" && tn.Obj().Name() != fc.rebuilt) {
+						fc.rebuiltOther = append(fc.rebuiltOther, types.ExprString(res))
+					}
+				}
+			}
+			return true
+		}
+		ast.Inspect(fl, walk)
+	}
+	defer func() {
+		if helperCall != nil && len(helperCall.Args) == 3 {
+			if fl, ok := ast.Unparen(helperCall.Args[2]).(*ast.FuncLit); ok {
+				rebuildReturns(fl)
+			}
+		}
+	}()
 	switch fc.helper {
 	case "tryFold":
 		if len(helperCall.Args) != 3 {
@@ -873,4 +918,56 @@ func checkFoldFresh(p *Prog, r *Report) {
 		}
 		r.Check(onlyP0, rule, "eval.tryFold:writes", p.pos(tf.Pos()), "tryFold writes only the slice it is given", "tryFold writes memory other than its slice argument")
 	}
+}
+
+// singleLocalDef: the one expression ever assigned to the local variable id names inside fl
+// (declared there with := or var, never re-assigned, never address-taken); nil otherwise.
+func singleLocalDef(info *types.Info, fl *ast.FuncLit, id *ast.Ident) ast.Expr {
+	obj := info.Uses[id]
+	if obj == nil || obj.Pos() < fl.Body.Pos() || obj.Pos() > fl.Body.End() {
+		return nil
+	}
+	var defs []ast.Expr
+	bad := false
+	ast.Inspect(fl.Body, func(n ast.Node) bool {
+		switch x := n.(type) {
+		case *ast.AssignStmt:
+			for i, l := range x.Lhs {
+				lid, ok := l.(*ast.Ident)
+				if !ok || (info.Defs[lid] != obj && info.Uses[lid] != obj) {
+					continue
+				}
+				if len(x.Lhs) != len(x.Rhs) {
+					bad = true
+					continue
+				}
+				defs = append(defs, x.Rhs[i])
+			}
+		case *ast.ValueSpec:
+			for i, nm := range x.Names {
+				if info.Defs[nm] == obj {
+					if i < len(x.Values) {
+						defs = append(defs, x.Values[i])
+					} else {
+						bad = true
+					}
+				}
+			}
+		case *ast.UnaryExpr:
+			if x.Op == token.AND {
+				if xid, ok := ast.Unparen(x.X).(*ast.Ident); ok && info.Uses[xid] == obj {
+					bad = true
+				}
+			}
+		case *ast.IncDecStmt:
+			if xid, ok := x.X.(*ast.Ident); ok && info.Uses[xid] == obj {
+				bad = true
+			}
+		}
+		return true
+	})
+	if bad || len(defs) != 1 {
+		return nil
+	}
+	return defs[0]
 }
